@@ -15,7 +15,7 @@ RULE = ("Generated strictly convex linear-quadratic OCPs (1-2 states, 1-2 contro
         "inactive or active control bounds) x MultipleShooting|SingleShooting|DirectCollocation x N, M, grid x a generated choice of function arguments (any subset of the parameters, state and control "
         "guesses) and argument values. Oracles: (i) with a converged ipopt (tol 1e-10) the outputs of ocp.to_function equal sol.sample / sol.value after the same values were assigned with set_value / "
         "set_initial and ocp.solve() on a twin OCP (1e-6); (ii) with max_iter=0 and error_on_fail=False the outputs equal the imperative starting point (isolates the plumbing of guess arguments, incl. "
-        "DirectCollocation helper states); (iii) parameters not listed keep the values they currently have. Non-trivial = at least one guess argument or an unlisted parameter; distinct = SHA-1 of case JSON.")
+        "DirectCollocation helper states); (iii) parameters not listed keep the values they currently have, whether assigned before or after the first transcription. Non-trivial = at least one guess argument or an unlisted parameter; distinct = SHA-1 of case JSON.")
 ASSUMPTIONS = ["strict convexity: the optimum is unique, so two solver runs from different start points agree to 1e-6", "ipopt honours error_on_fail=False with max_iter=0 and returns the start point"]
 
 
@@ -38,8 +38,10 @@ def strategy_(draw):
     vals = {"pg": [draw(gen.small()) for _ in range(n)], "pr": [draw(gen.small()) for _ in range(N)], "pw": draw(gen.small()),
             "xguess": [[draw(gen.small()) for _ in range(N + 1)] for _ in range(n)], "uguess": [[draw(gen.small()) for _ in range(N)] for _ in range(mu)]}
     current = {"pg": [draw(gen.small()) for _ in range(n)], "pr": [draw(gen.small()) for _ in range(N)], "pw": draw(gen.small())}
+    # "current values" may also have been assigned after the problem was transcribed (e.g. after an earlier solve or query)
+    late = {k: v for k, v in {"pg": [draw(gen.small()) for _ in range(n)], "pr": [draw(gen.small()) for _ in range(N)], "pw": draw(gen.small())}.items() if draw(st.integers(0, 2)) == 0}
     return {"n": n, "mu": mu, "method": m, "A": A, "B": B, "T": draw(st.sampled_from([1.0, 2.0, 0.5])), "t0": draw(st.sampled_from([0.0, 1.0])), "umax": draw(st.sampled_from([0.5, 5.0])),
-            "args": args, "vals": vals, "current": current, "rng": draw(st.integers(0, 2**31 - 1))}
+            "args": args, "vals": vals, "current": current, "late": late, "rng": draw(st.integers(0, 2**31 - 1))}
 
 
 def strategy(tier):
@@ -54,6 +56,8 @@ def classify(case):
     labs = ["method:" + case["method"]["cls"], "grid:" + case["method"]["grid"]["cls"]] + ["arg:" + a for a in case["args"]] + ["unlisted:" + a for a in sorted({"pg", "pr", "pw"} - set(case["args"]))]
     if "xguess" in case["args"] and case["args"][-1] != "xguess":
         labs.append("state guess followed by another argument")
+    if set(case.get("late", {})) - set(case["args"]):
+        labs.append("unlisted parameter assigned after transcription")
     return labs
 
 
@@ -82,6 +86,10 @@ def make(case, solver_opts):
     opts = dict(IPOPT_QUIET)
     opts.update(solver_opts)
     ocp.solver("ipopt", opts)
+    if case.get("late"):
+        ocp.sample(x, grid="control")      # transcribes
+        for k, v in case["late"].items():
+            ocp.set_value({"pg": pg, "pr": pr, "pw": pw}[k], ca.DM(v).T if k == "pr" else (ca.DM(v) if k == "pg" else v))
     return ocp, {"x": x, "u": u, "pg": pg, "pr": pr, "pw": pw}
 
 
